@@ -5,6 +5,7 @@ mod anyval;
 mod body;
 mod codegen;
 mod dynval;
+mod errors;
 mod negotiate;
 mod orders;
 mod recser;
@@ -22,6 +23,7 @@ fn main() {
         "codegen-safe" => codegen::codegen_safe(rest),
         "negotiate" => negotiate::negotiate(rest),
         "uri" => uri::uri(rest),
+        "errors" => errors::errors(rest),
         "orders" => orders::orders(rest),
         "serde" => serdewrap::serdewrap(rest),
         "any" => anyval::anyval(rest),
